@@ -7,6 +7,9 @@
 import BioSeq.Seq
 import BioSeq.Kmer
 import BioSeq.Iter
+import BioSeq.IterStd
+import BioSeq.Array
+import BioSeq.Order
 import BioSeq.Misc
 import BioSeq.Standard
 import BioSeq.Serde
@@ -325,11 +328,10 @@ partial def evalV (x : Ctx) : V → R Bits
     -- `From<&SeqArray>` / `From<SeqArray>` for `Seq`: iterate the array's symbols, convert (identity), collect
     let bs ← evalS x s
     if ¬ arrLens.contains (Seq.len x.c bs) then .error .unsup else
-    let ss ← liftRes (Seq.iterSyms x.p x.c bs)
-    pure (Seq.extend x.c [] ss)
+    liftRes (SeqArr.toSeq x.p x.c (SeqArr.ofBits ((bs.length + 63) / 64) x.c bs))
   | .vecWords ws =>
     -- `From<Vec<usize>> for Seq<text::Dna>`: the words' bits, whole
-    if x.name = "text" then pure (bitsOfWords (ws.map (· % 2^64))) else .error .unsup
+    if x.name = "text" then pure (Seq.ofVecWords ws) else .error .unsup
   | .ofKmer k s => do
     let bs ← evalS x s
     if k = 0 ∨ k > 64 then .error .unsup else
@@ -348,7 +350,7 @@ partial def evalS (x : Ctx) : S → R Bits
   | .arr s => do
     -- a hand-built `SeqArray<A, N, W>` derefs to the first `N * BITS` bits of its words: the same content
     let bs ← evalS x s
-    if arrLens.contains (Seq.len x.c bs) then pure bs else .error .unsup
+    if arrLens.contains (Seq.len x.c bs) then liftRes ((SeqArr.ofBits ((bs.length + 63) / 64) x.c bs).deref x.c) else .error .unsup
   | .lit id =>
     match Misc.lit x.name id with
     | some bs => pure bs
@@ -386,6 +388,41 @@ def slicesStr (c : Codec) (ss : List Bits) : String :=
   ";".intercalate (ss.map fun s => s!"{Seq.len c s}:{content c s}")
 
 def seqRes {α} (xs : List (Res α)) : Res (List α) := xs.mapM id
+
+/-- one `adapt` request on an iterator given by its step function: every item that the real code computes is computed
+    (an item that panics makes the whole request panic), the answer is taken from the std-default definitions -/
+def stdAdapt {σ α : Type} (next : σ → Option (Res α × σ)) (fuel : Nat) (s0 : σ) (ad : String) (arg : Nat) :
+    Res (Sum (List α) Nat) :=
+  let items (l : List (Res α)) : Res (Sum (List α) Nat) := (seqRes l).map Sum.inl
+  let opt (o : Option (Res α)) : Res (Sum (List α) Nat) := items o.toList
+  -- consuming methods visit every remaining item: any panic among them is the request's outcome
+  let consume (s : σ) (k : Unit → Res (Sum (List α) Nat)) : Res (Sum (List α) Nat) := do
+    let _ ← seqRes (Iter.collect next fuel s)
+    k ()
+  -- by-reference `nth(n)` visits the items it skips
+  let visited (n : Nat) (s : σ) (k : Unit → Res (Sum (List α) Nat)) : Res (Sum (List α) Nat) := do
+    let _ ← seqRes (Iter.takeCollect next fuel (n + 1) s)
+    k ()
+  match ad with
+  | "nth" => visited arg s0 fun _ => opt (Iter.nthD next arg s0).1
+  | "skip" => items (Iter.skipCollect next fuel arg s0)
+  | "stepby" => consume s0 fun _ => items (Iter.stepByCollect next fuel (max arg 1) s0)
+  | "last" => consume s0 fun _ => opt (Iter.lastD next fuel s0)
+  | "take" => items (Iter.takeCollect next fuel arg s0)
+  | "nthnext" => visited arg s0 fun _ => items (Iter.collect next fuel (Iter.nthD next arg s0).2)
+  | "count" => consume s0 fun _ => .ok (.inr (Iter.countD next fuel s0))
+  | "hint" => consume s0 fun _ => .ok (.inr 1)
+  | "lastafter" => consume s0 fun _ => opt (Iter.lastD next fuel (Iter.advance next arg s0))
+  | "countafter" => consume s0 fun _ => .ok (.inr (Iter.countD next fuel (Iter.advance next arg s0)))
+  | "foldafter" => consume s0 fun _ => items (Iter.foldD next fuel (fun acc x => acc ++ [x]) [] (Iter.advance next arg s0))
+  | "nthhuge" => consume s0 fun _ =>
+      let s1 := Iter.advance next arg s0
+      let r := Iter.nthD next (2^64 - 1) s1
+      items (r.1.toList ++ Iter.collect next fuel r.2)
+  | "nthcount" => consume s0 fun _ => .ok (.inr (Iter.countD next fuel (Iter.nthD next arg s0).2))
+  | "nthlast" => consume s0 fun _ => opt (Iter.lastD next fuel (Iter.nthD next arg s0).2)
+  | "nthhint" => consume s0 fun _ => .ok (.inr 1)
+  | _ => .ok (.inl [])
 
 def ordStr : Ordering → String
   | .lt => "lt" | .eq => "eq" | .gt => "gt"
@@ -580,7 +617,8 @@ def kmerQuery (x : Ctx) : Q String := do
       let s ← qlift parseS; let bs ← qr (evalS x s)
       if pr ≠ "slice" ∧ pr ≠ "refslice" ∧ pr ≠ "arr" ∧ pr ≠ "refarr" then throw (.badOp "pairing")
       if (pr = "arr" ∨ pr = "refarr") ∧ (Seq.len c bs ≠ k ∨ k * c.width > 64) then throw (.badOp "arr length")
-      let r ← qres (Kmer.eqSlice x.p c k st (v % md) bs)
+      let r ← qres (if pr = "arr" ∨ pr = "refarr" then SeqArr.eqKmer x.p c k st (v % md) (SeqArr.ofBits 1 c bs)
+                    else Kmer.eqSlice x.p c k st (v % md) bs)
       pure (boolStr r)
     | "serde" => do
       let v ← qlift num
@@ -652,10 +690,8 @@ def query (x : Ctx) (q : String) : Q String := do
     let b ← qlift parseV; let r ← qr (evalV x b)
     if ¬ isOrd x.name then throw .unsup
     -- Ord::cmp, PartialOrd::partial_cmp, <, <=, >, >=, Ord::max (second argument unless the first is greater), Ord::min
-    let o := Seq.cmp l r
-    let mx := if o == .gt then l else r
-    let mn := if o == .gt then r else l
-    pure s!"{ordStr o} {ordStr o} {boolStr (o == .lt)} {boolStr (o != .gt)} {boolStr (o == .gt)} {boolStr (o != .lt)} {content c mx} {content c mn}"
+    let pc := match Seq.partialCmp l r with | some o => ordStr o | none => "none"
+    pure s!"{ordStr (Seq.cmp l r)} {pc} {boolStr (Seq.lt l r)} {boolStr (Seq.le l r)} {boolStr (Seq.gt l r)} {boolStr (Seq.ge l r)} {content c (Seq.max l r)} {content c (Seq.min l r)}"
   | "serde" => do
     let v ← qlift parseV; let bs ← qr (evalV x v)
     let r := Serde.ser bs
@@ -686,53 +722,36 @@ def query (x : Ctx) (q : String) : Q String := do
     let ok := match Serde.de (Serde.ser bs) with | .ok b => b == bs | .error _ => false
     pure s!"{showS x bs} {boolStr ok} {boolStr ok}"
   | "adapt" => do
+    -- the std default `Iterator` methods, driven through the model's own `next` functions (BioSeq/IterStd.lean;
+    -- Props/C11Std.lean proves they act on the collected list like a cursor)
     let kind ← qlift next
     let w ← qlift num
     let ad ← qlift next
     let arg ← qlift num
     let s ← qlift parseS; let bs ← qr (evalS x s)
-    let stepBy {α} (k : Nat) (l : List α) : List α :=
-      (l.zipIdx.filter fun (_, i) => i % (max k 1) == 0).map (·.1)
-    let apply {α} (l : List α) : Sum (List α) Nat :=
-      match ad with
-      | "nth" => .inl (l[arg]?).toList
-      | "skip" => .inl (l.drop arg)
-      | "stepby" => .inl (stepBy arg l)
-      | "last" => .inl l.getLast?.toList
-      | "take" => .inl (l.take arg)
-      | "nthnext" => .inl (l.drop (arg + 1))
-      | "count" => .inr l.length
-      | "hint" => .inr 1
-      | "lastafter" => .inl (l.drop arg).getLast?.toList
-      | "countafter" => .inr (l.drop arg).length
-      | "foldafter" => .inl (l.drop arg)
-      | "nthhuge" => .inl []
-      | "nthcount" => .inr (l.drop (arg + 1)).length
-      | "nthlast" => .inl (l.drop (arg + 1)).getLast?.toList
-      | "nthhint" => .inr 1
-      | _ => .inl []
     if ad = "collectseq" then
-      let f ← qres (seqRes (Iter.iter x.p c bs))
-      let b ← qres (seqRes (Iter.revIter x.p c bs))
-      return s!"{showS x (Seq.extend c [] (f.drop arg))} | {showS x (Seq.extend c [] (b.drop arg))}"
+      let fuel := Seq.len c bs + 1
+      let f ← qres (seqRes (Iter.collect (Iter.seqIterNext x.p c bs) fuel (Iter.advance (Iter.seqIterNext x.p c bs) arg 0)))
+      let b ← qres (seqRes (Iter.collect (Iter.revIterNext x.p c bs) fuel (Iter.advance (Iter.revIterNext x.p c bs) arg (Seq.len c bs))))
+      return s!"{showS x (Seq.extend c [] f)} | {showS x (Seq.extend c [] b)}"
     match kind with
     | "windows" => do
-      let l ← qres (seqRes (Iter.windows x.p c bs w))
-      pure (match apply l with | .inl r => slicesStr c r | .inr n => toString n)
+      let r ← qres (stdAdapt (Iter.chunksNext x.p c bs) (Seq.len c bs + 1) ⟨w, 1, 0⟩ ad arg)
+      pure (match r with | .inl r => slicesStr c r | .inr n => toString n)
     | "chunks" => do
-      let l ← qres (seqRes (Iter.chunks x.p c bs w))
-      pure (match apply l with | .inl r => slicesStr c r | .inr n => toString n)
+      let r ← qres (stdAdapt (Iter.chunksNext x.p c bs) (Seq.len c bs + 1) ⟨w, w, 0⟩ ad arg)
+      pure (match r with | .inl r => slicesStr c r | .inr n => toString n)
     | "iter" => do
-      let l ← qres (seqRes (Iter.iter x.p c bs))
-      pure (match apply l with | .inl r => codesStr r | .inr n => toString n)
+      let r ← qres (stdAdapt (Iter.seqIterNext x.p c bs) (Seq.len c bs + 1) 0 ad arg)
+      pure (match r with | .inl r => codesStr r | .inr n => toString n)
     | "reviter" => do
-      let l ← qres (seqRes (Iter.revIter x.p c bs))
-      pure (match apply l with | .inl r => codesStr r | .inr n => toString n)
+      let r ← qres (stdAdapt (Iter.revIterNext x.p c bs) (Seq.len c bs + 1) (Seq.len c bs) ad arg)
+      pure (match r with | .inl r => codesStr r | .inr n => toString n)
     | "kmers" => do
       if w = 0 ∨ w > 64 then throw .unsup
       if w * c.width > 64 then throw .unsup
-      let l ← qres (seqRes (Kmer.kmers x.p c w bs))
-      pure (match apply l with | .inl r => natsStr r | .inr n => toString n)
+      let r ← qres (stdAdapt (Kmer.iterNext x.p c w bs (Seq.len c bs)) (Seq.len c bs + 1) 0 ad arg)
+      pure (match r with | .inl r => natsStr r | .inr n => toString n)
     | _ => throw (.badOp "adapt kind")
   | "mapget" => do
     let n ← qlift num
@@ -916,7 +935,7 @@ def special (x : Ctx) (q : String) : Option (Q String) :=
     if ¬ arrLens.contains (Seq.len x.c bs) then throw .unsup
     let some dstp := (if target = "iupac" then some Gen.iupac else if target = "text" then some Gen.text else none)
       | throw (.badOp "conv target")
-    let r ← qres (Standard.convert p x.c (dstp p) (Standard.convTable p target) bs)
+    let r ← qres (SeqArr.convert p x.c (dstp p) (Standard.convTable p target) (SeqArr.ofBits ((bs.length + 63) / 64) x.c bs))
     pure (showS { x with c := dstp p, name := target } r)
   | "dna", "toamino" => some do
     let s ← qlift parseS; let bs ← qr (evalS x s)
